@@ -227,7 +227,7 @@ def gen_case(rnd, tier: str, i: Any) -> Dict[str, Any]:
         # a loaded G-sim trace through both CallGraph classes
         p = gen_sim.random_params(rnd, tier, autograd=False, avoid_k1=True, p_zero=rnd.choice([0.1, 0.3]),
                                   tight=rnd.random() < 0.5, n_steps=rnd.choice([0, 1, 2]), first_step=rnd.randint(1, 300))
-        p2 = dict(p, rank=1, n_threads=rnd.choice([1, 2, 3]), max_depth=rnd.choice([1, 3, 5]))
+        p2 = dict(p, rank=1, n_threads=rnd.choice([1, 2, 3]), max_depth=rnd.choice([1, 3, 5]), multi_process=rnd.random() < 0.5)
         return {"kind": "callgraph", "trace": gen_sim.gen_trace(rnd, **p), "trace2": gen_sim.gen_trace(rnd, **p2) if rnd.random() < 0.7 else None}
     tmax = rnd.choice([3, 5, 8, 12, 40])
     spans = gen_nest.gen_family(rnd, rnd.randint(1, rnd.choice([6, 12, 60])), tmax, rnd.choice([0.0, 0.15, 0.35]))
